@@ -756,4 +756,181 @@ theorem loop6 : ∀ (cnt f j : Nat) (k : ThetaSt OSt), k.fault = none → k.obs.
     rw [evalQ_step k.obs (j : Int) _ v w hv hw (by omega)]
 end Loop6
 
+
+/-! ### one iteration of the main loop -/
+
+theorem headStep_inv (P : Params) (i : Nat) (s : St) (he0 : s.err = none) (he : (headStep P i s).err = none) :
+    ∃ L S : Nat, s.lenList = (L : Int) ∧ L ≤ P.n ∧ levelSum s.level L = some S ∧
+      headStep P i s = { s with lenCount := (S : Int), trace := s.trace ++ [.head i (L : Int) (S : Int)] } := by
+  by_cases h : 0 ≤ s.lenList ∧ s.lenList ≤ P.n
+  · obtain ⟨L, hL⟩ : ∃ L : Nat, s.lenList = (L : Int) := ⟨s.lenList.toNat, by omega⟩
+    have h1 : (0 : Int) ≤ (L : Int) ∧ (L : Int) ≤ (P.n : Int) := by omega
+    cases hS : levelSum s.level L with
+    | none => simp [headStep, he0, hL, h1, hS, St.fail] at he
+    | some S =>
+      refine ⟨L, S, hL, by omega, hS, ?_⟩
+      simp [headStep, he0, hL, h1, hS, St.emit]
+  · simp [headStep, he0, h, St.fail] at he
+
+/-- hand-model state after the isogeny part of iteration `i` with kernel slot `c` of exponent `kk` -/
+def isod (P : Params) (s : St) (i c kk : Nat) : St :=
+  { index := s.index, lenList := (c : Int), lenCount := s.lenCount, level := s.level, pts := s.pts,
+    q := fun j => if decide ((i : Int) < (P.n : Int) - 2) && decide (j < c) then (s.q j).map (· - 1) else s.q j,
+    err := none,
+    trace := s.trace ++ [.step i (c : Int)
+        (if (i : Int) = (P.n : Int) - 3 then 1 else if (i : Int) = (P.n : Int) - 2 then 2 else 0) kk,
+      .pop i (c : Int) (if (i : Int) < (P.n : Int) - 2 then 1 else 0)] }
+
+theorem isoStep_inv (P : Params) (i : Nat) (s : St) (he0 : s.err = none) (he : (isoStep P i s).err = none) :
+    ∃ c kk : Nat, s.lenList = (c : Int) + 1 ∧ c < P.n ∧ s.q c = some kk ∧ isoStep P i s = isod P s i c kk := by
+  by_cases hidx : idxOK (s.lenList - 1) P.n = true
+  · have hidx' := hidx
+    simp [idxOK] at hidx'
+    obtain ⟨c, hc⟩ : ∃ c : Nat, s.lenList = (c : Int) + 1 := ⟨(s.lenList - 1).toNat, by omega⟩
+    have h1 : idxOK (c : Int) P.n = true := by simp [idxOK]; omega
+    cases ho : s.q c with
+    | none => simp [isoStep, he0, hc, h1, ho, St.fail] at he
+    | some kk =>
+      refine ⟨c, kk, hc, by omega, ho, ?_⟩
+      simp [isoStep, isod, St.emit, he0, hc, h1, ho]
+  · simp [isoStep, he0, hidx, St.fail] at he
+
+theorem isoStep_err (P : Params) (i : Nat) (s : St) (h : s.err.isSome = true) : isoStep P i s = s := by
+  simp [isoStep, h]
+theorem headStep_err (P : Params) (i : Nat) (s : St) (h : s.err.isSome = true) : headStep P i s = s := by
+  simp [headStep, h]
+
+/-- every slot of Q below `len_list` is initialised -/
+def Qs (m : St) : Prop := ∀ j : Nat, (j : Int) < m.lenList → (m.q j).isSome = true
+
+theorem whileLoop_qs (P : Params) (i : Nat) : ∀ (n : Nat) (m : St), Qs m → m.err = none →
+    P.row.length - m.index ≤ n → (whileLoop P i m).err = none → Qs (whileLoop P i m) := by
+  intro n
+  induction n with
+  | zero =>
+    intro m hq he0 hn he
+    by_cases hb : m.lenCount = P.m - 1 - (i : Int)
+    · rw [whileLoop_exit P i m he0 hb]; exact hq
+    · exfalso
+      rw [whileLoop] at he
+      have : ¬ m.index < P.row.length := by omega
+      simp [he0, hb, this, St.fail] at he
+  | succ n ih =>
+    intro m hq he0 hn he
+    by_cases hb : m.lenCount = P.m - 1 - (i : Int)
+    · rw [whileLoop_exit P i m he0 hb]; exact hq
+    · by_cases hs : m.index < P.row.length
+      · rw [whileLoop_push P i m he0 hb hs] at he ⊢
+        have hpe : (pushBody P m P.row[m.index]).err = none := by
+          cases hq' : (pushBody P m P.row[m.index]).err with
+          | none => rfl
+          | some e =>
+            rw [whileLoop_err P i _ (by simp [hq'])] at he
+            simp [hq'] at he
+        obtain ⟨c, o, hc, hv, ho⟩ := pushBody_inv P m _ hpe
+        rw [pushBody_ok P m c _ o he0 hc hv ho] at he ⊢
+        refine ih _ ?_ rfl (by simp only [pushed]; omega) he
+        intro j hj
+        simp only [pushed, SqiModel.ThetaChain.upd] at hj ⊢
+        by_cases hjc : j = c + 1
+        · simp [hjc]
+        · simp only [hjc, if_false]
+          exact hq j (by omega)
+      · exfalso
+        rw [whileLoop] at he
+        simp [he0, hb, hs, St.fail] at he
+
+
+/-- observer after the step of iteration `i` with kernel exponent `kk` -/
+def stepObs (o : OSt) (i : Int) (kk : Nat) : OSt :=
+  { o with r1 := some kk, r2 := some kk, steps := o.steps ++ [i], kers := o.kers ++ [(12, kk)] }
+
+/-- observer after the isogeny part of iteration `i` -/
+def isoObs (o : OSt) (i c : Int) (kk : Nat) (evf : Bool) : OSt :=
+  if evf then evalQ (stepObs o i kk) 0 c else stepObs o i kk
+
+theorem obs_ok (o : OSt) : obs.ok o = !o.bad := rfl
+
+section Body3
+variable (P : Params) (oracle : Nat → Bool) (fuel : Nat) (ea : Int)
+
+theorem body3 (k k1 k2 : ThetaSt OSt) (i c kk : Nat) (hf : k.fault = none) (hb : k.obs.bad = false)
+    (hk1 : whileF (ThetaSt.live obs)
+      (fun s => match theta_chain_comput_strategy_loop4_cond obs P.row oracle fuel P.n ea s with | .ok b => b | .error _ => true)
+      (fun s => match theta_chain_comput_strategy_loop4_cond obs P.row oracle fuel P.n ea s with
+        | .ok _ => theta_chain_comput_strategy_loop4_body obs P.row oracle fuel P.n ea s | .error f => s.fail f)
+      (fun s => s.fail .fuel) fuel { k with len_count := 0, j := 0 } = k1)
+    (h1f : k1.fault = none) (h1b : k1.obs.bad = false)
+    (hk2 : whileF (ThetaSt.live obs)
+      (fun s => match theta_chain_comput_strategy_loop5_cond obs P.row oracle fuel P.n ea s with | .ok b => b | .error _ => true)
+      (fun s => match theta_chain_comput_strategy_loop5_cond obs P.row oracle fuel P.n ea s with
+        | .ok _ => theta_chain_comput_strategy_loop5_body obs P.row oracle fuel P.n ea s | .error f => s.fail f)
+      (fun s => s.fail .fuel) fuel k1 = k2)
+    (h2f : k2.fault = none) (h2b : k2.obs.bad = false) (hi : k2.i = (i : Int)) (hl : k2.len_list = (c : Int) + 1)
+    (hs3 : k2.obs.size 3 = (P.n : Int)) (hs4 : k2.obs.size 4 = (P.n : Int)) (hs5 : k2.obs.size 5 = (P.n : Int) - 1)
+    (hc : c < P.n) (hin5 : (i : Int) < (P.n : Int) - 1)
+    (hv : k2.obs.arr 3 (c : Int) = some kk) (hw : k2.obs.arr 4 (c : Int) = some kk)
+    (hq : ∀ x : Nat, x < c → (k2.obs.arr 3 (x : Int)).isSome = true ∧ (k2.obs.arr 4 (x : Int)).isSome = true)
+    (hea : ea = 1 ∨ (ea = 0 ∧ (i : Int) < (P.n : Int) - 3)) (hfu : c ≤ fuel) :
+    theta_chain_comput_strategy_loop3_body obs P.row oracle fuel P.n ea k =
+      { k2 with len_list := (c : Int), i := (i : Int) + 1,
+                j := if (i : Int) < (P.n : Int) - 2 then (c : Int) else k2.j,
+                obs := isoObs k2.obs (i : Int) (c : Int) kk (decide ((i : Int) < (P.n : Int) - 2)) } := by
+  unfold theta_chain_comput_strategy_loop3_body
+  rw [step_live _ k hf hb]
+  dsimp only
+  rw [step_live _ { k with len_count := 0 } hf hb]
+  dsimp only
+  rw [step_live _ { k with len_count := 0, j := 0 } hf hb]
+  erw [hk1]
+  rw [step_live _ k1 h1f h1b]
+  erw [hk2]
+  have hc0 : (0 : Int) ≤ (c : Int) := by omega
+  have hc1 : (c : Int) < (P.n : Int) := by omega
+  have hi0 : (0 : Int) ≤ (i : Int) := by omega
+  have hA : ∀ (f1 f2 : ThetaSt OSt → ThetaSt OSt) (X Y Z : ThetaSt OSt), X = Y →
+      ThetaSt.step obs f1 (ThetaSt.step obs f2 Y) = Z → ThetaSt.step obs f1 (ThetaSt.step obs f2 X) = Z := by
+    intro f1 f2 X Y Z h1 h2; rw [h1]; exact h2
+  apply hA _ _ _ { k2 with len_list := (c : Int), obs := stepObs k2.obs (i : Int) kk }
+  · have hin5' : (i : Int) < (P.n : Int) - 1 := hin5
+    rcases hea with hea | ⟨hea, hi3⟩
+    · subst hea
+      by_cases h3 : (i : Int) = (P.n : Int) - 3
+      · have h3' := eq_true h3
+        simp [ThetaSt.step, ThetaSt.live, obs_ev, obs_ok, h2f, h2b, hi, hl, EvKind.loadR, EvKind.step, truthy,
+          ev_loadR3_s, ev_loadR4_s, ev_loadR5_s, ev_step_s, OSt.inb, hs3, hs4, hs5, hv, hw, hc0, hc1, hi0, hin5', stepObs, h3']
+      · have h3' := eq_false h3
+        by_cases h2 : (i : Int) = (P.n : Int) - 2
+        · have h2' := eq_true h2
+          simp [ThetaSt.step, ThetaSt.live, obs_ev, obs_ok, h2f, h2b, hi, hl, EvKind.loadR, EvKind.step, truthy,
+          ev_loadR3_s, ev_loadR4_s, ev_loadR5_s, ev_step_s, OSt.inb, hs3, hs4, hs5, hv, hw, hc0, hc1, hi0, hin5', stepObs, h3', h2']
+        · have h2' := eq_false h2
+          simp [ThetaSt.step, ThetaSt.live, obs_ev, obs_ok, h2f, h2b, hi, hl, EvKind.loadR, EvKind.step, truthy,
+          ev_loadR3_s, ev_loadR4_s, ev_loadR5_s, ev_step_s, OSt.inb, hs3, hs4, hs5, hv, hw, hc0, hc1, hi0, hin5', stepObs, h3', h2']
+    · subst hea
+      have h3' : ((i : Int) = (P.n : Int) - 3) = False := eq_false (by omega)
+      have h2' : ((i : Int) = (P.n : Int) - 2) = False := eq_false (by omega)
+      simp [ThetaSt.step, ThetaSt.live, obs_ev, obs_ok, h2f, h2b, hi, hl, EvKind.loadR, EvKind.step, truthy,
+          ev_loadR3_s, ev_loadR4_s, ev_loadR5_s, ev_step_s, OSt.inb, hs3, hs4, hs5, hv, hw, hc0, hc1, hi0, hin5', stepObs, h3', h2']
+  · have hsb : (stepObs k2.obs (i : Int) kk).bad = false := by simp [stepObs, h2b]
+    rw [step_live _ { k2 with len_list := (c : Int), obs := stepObs k2.obs (i : Int) kk } h2f hsb]
+    dsimp only
+    rw [hi]
+    by_cases hev : (i : Int) < (P.n : Int) - 2
+    · rw [if_pos (by simpa using hev)]
+      rw [step_live _ { k2 with len_list := (c : Int), i := (i : Int), obs := stepObs k2.obs (i : Int) kk } h2f hsb]
+      dsimp only
+      rw [step_live _ { k2 with len_list := (c : Int), i := (i : Int), j := 0, obs := stepObs k2.obs (i : Int) kk } h2f hsb]
+      erw [loop6 P oracle fuel ea c fuel 0
+        { k2 with len_list := (c : Int), i := (i : Int), j := 0, obs := stepObs k2.obs (i : Int) kk }
+        h2f hsb rfl (by simp) (by simp [stepObs, hs3]) (by simp [stepObs, hs4]) (by omega) (by simp only []; omega)
+        (by simp only [stepObs, hs5]; omega)
+        (by intro x _ hx; simpa [stepObs] using hq x (by omega)) hfu]
+      dsimp only
+      simp [ThetaSt.step, ThetaSt.live, obs_ok, h2f, h2b, evalQ, stepObs, isoObs, hev]
+    · rw [if_neg (by simpa using hev)]
+      rw [step_live _ { k2 with len_list := (c : Int), i := (i : Int), obs := stepObs k2.obs (i : Int) kk } h2f hsb]
+      simp [isoObs, hev]
+end Body3
+
 end SqiProofs.SkelThetaSim
